@@ -49,23 +49,30 @@ def setCell (y : List (List Nat)) (r n v : Nat) : List (List Nat) :=
 def scatterDraw (y : List (List Nat)) (lens draw : List Nat) : List (List Nat) :=
   (List.range draw.length).foldl (fun y n => setCell y (lens.getD n 0) n (draw.getD n 0)) y
 
+/-- `log_probs_prev + log_probs_t.gather(1, y_t).squeeze(1)`. -/
+def pickScores (lpT : List (List (Option Rat))) (lpPrev : List (Option Rat)) (draw : List Nat) :
+    List (Option Rat) :=
+  let picked := List.zipWith (fun (row : List (Option Rat)) d => row.getD d none) lpT draw
+  List.zipWith addLP lpPrev picked
+
+/-- The growth of `y`: `cat` when `max(lens) >= S` ("don't make y bigger unless we have to"),
+then `scatter` of the draw at `lens[n]`; a fresh `y` is just the draw. -/
+def growY (yPrev : List (List Nat)) (lens : Option (List Nat)) (draw : List Nat) :
+    List (List Nat) :=
+  if yPrev.length ≠ 0 then
+    match lens with
+    | none => yPrev ++ [draw]
+    | some ls =>
+      let grown := if yPrev.length ≤ ls.foldl max 0 then yPrev ++ [draw] else yPrev
+      scatterDraw grown ls draw
+  else [draw]
+
 /-- `random_walk_advance(log_probs_t, log_probs_prev, y_prev, y_prev_lens)` with the drawn
 tokens `draw` (the result of `torch.multinomial`) given. Returns `(y_next, log_probs_next)`. -/
 def advance (lpT : List (List (Option Rat))) (lpPrev : List (Option Rat))
     (yPrev : List (List Nat)) (lens : Option (List Nat)) (draw : List Nat) :
     List (List Nat) × List (Option Rat) :=
-  let picked := List.zipWith (fun (row : List (Option Rat)) d => row.getD d none) lpT draw
-  let lpNext := List.zipWith addLP lpPrev picked
-  let yNext :=
-    if yPrev.length ≠ 0 then
-      match lens with
-      | none => yPrev ++ [draw]
-      | some ls =>
-        -- "don't make y bigger unless we have to"
-        let grown := if yPrev.length ≤ ls.foldl max 0 then yPrev ++ [draw] else yPrev
-        scatterDraw grown ls draw
-    else [draw]
-  (yNext, lpNext)
+  (growY yPrev lens draw, pickScores lpT lpPrev draw)
 
 /-! ## `RandomWalk.forward` -/
 
@@ -79,26 +86,41 @@ structure WState where
 def initState (N : Nat) : WState :=
   ⟨[], List.replicate N 0, List.replicate N false, List.replicate N (some 0)⟩
 
+/-- `lm.calc_idx_log_probs(y[:t], prev, t)[0].log_softmax(-1)` for the `N` paths. -/
+def lmRows (lm : LM) (V N : Nat) (hist : List (List Nat)) : List (List (Option Rat)) :=
+  (List.range N).map (fun n => (List.range V).map (fun v => some (lm n (column hist n) v)))
+
+/-- Finished paths get all mass on `eos`: `masked_fill(eos_mask, -inf)` then
+`masked_fill(eos_mask & one_hot(eos), 0.0)`. -/
+def forceEos (V : Nat) (eos : Option Nat) (done : List Bool) (rows : List (List (Option Rat))) :
+    List (List (Option Rat)) :=
+  match eos with
+  | none => rows
+  | some e =>
+    List.zipWith (fun (d : Bool) (row : List (Option Rat)) =>
+      if d then (List.range V).map (fun v => if v = e then some (0 : Rat) else none) else row)
+      done rows
+
+/-- `y_lens += ~eos_mask` (or `+= 1` without `eos`). -/
+def nextLens (eos : Option Nat) (lens : List Nat) (done : List Bool) : List Nat :=
+  match eos with
+  | none => lens.map (· + 1)
+  | some _ => List.zipWith (fun l (d : Bool) => if d then l else l + 1) lens done
+
+/-- `eos_mask = y.gather(0, y_lens.unsqueeze(0) - 1).squeeze(0) == eos`. -/
+def nextDone (eos : Option Nat) (y' : List (List Nat)) (lens' : List Nat) (done : List Bool) :
+    List Bool :=
+  match eos with
+  | none => done
+  | some e => lens'.zipIdx.map (fun ln => ((y'.getD (ln.1 - 1) []).getD ln.2 0) == e)
+
 /-- One iteration of the loop body at loop counter `t` with the draw `draw`. -/
 def step (lm : LM) (V : Nat) (eos : Option Nat) (t : Nat) (s : WState) (draw : List Nat) :
     WState :=
-  let hist := s.y.take t
-  let lpT0 : List (List (Option Rat)) :=
-    (List.range s.lens.length).map (fun n =>
-      (List.range V).map (fun v => some (lm n (column hist n) v)))
-  let lpT := match eos with
-    | none => lpT0
-    | some e =>
-      List.zipWith (fun (d : Bool) (row : List (Option Rat)) =>
-        if d then (List.range V).map (fun v => if v = e then some (0 : Rat) else none) else row)
-        s.done lpT0
-  let (y', lp') := advance lpT s.lp s.y (some s.lens) draw
-  match eos with
-  | none => ⟨y', s.lens.map (· + 1), s.done, lp'⟩
-  | some e =>
-    let lens' := List.zipWith (fun l (d : Bool) => if d then l else l + 1) s.lens s.done
-    let done' := lens'.zipIdx.map (fun ln => ((y'.getD (ln.1 - 1) []).getD ln.2 0) == e)
-    ⟨y', lens', done', lp'⟩
+  let lpT := forceEos V eos s.done (lmRows lm V s.lens.length (s.y.take t))
+  let r := advance lpT s.lp s.y (some s.lens) draw
+  let lens' := nextLens eos s.lens s.done
+  ⟨r.1, lens', nextDone eos r.1 lens' s.done, r.2⟩
 
 /-- The loop: `for t in range(max_iters): if eos_mask.all(): break; …`, one draw row per
 iteration. -/
